@@ -126,14 +126,18 @@ def gen_wide(rng, K, nlev, n_random, style, seed_rows=1):
                     if seen:
                         df.iloc[i, df.columns.get_loc(c)] = 0.0
                     seen = True
-    ix = int(rng.integers(0, 4))
+    ix = int(rng.integers(0, 5))
+    if ix == 4 and style == 'surv_na':
+        ix = 2      # statsmodels' predict cannot re-insert rows with missing predictors under repeated labels
     if ix == 1:
         df.index = np.arange(n) + int(rng.integers(5, 500))
     elif ix == 2:
         df.index = rng.permutation(n) + int(rng.integers(0, 50))
     elif ix == 3:
         df.index = ['r%04d' % i for i in rng.permutation(n)]
-    return df, ('range', 'shifted', 'permuted', 'string')[ix]
+    elif ix == 4:
+        df.index = np.arange(n) // 2
+    return df, ('range', 'shifted', 'permuted', 'string', 'repeated')[ix]
 
 
 def wide_args(df, K):
@@ -190,7 +194,7 @@ def reference_run(chk, drv, df, K, nlev, models, plan, saturated):
             return ('err', rep, hdev)
         q = [None if t == '_' else unrq(t) for t in dec_list(rep['q'], str)]
         yk = 'Y%d' % (k + 1)
-        dfk = df.copy()
+        dfk = df.reset_index(drop=True)      # the reference call is the harness's own: labels are irrelevant to it
         dfk[yk] = [np.nan if v is None else float(v) for v in q]
         # the Rat values are exactly floats (0, 1, or a fitted value that came from a float)
         try:
@@ -256,12 +260,19 @@ def impl_ice(df, K, models, treatments, exposures=None, outcomes=None, specify=T
 
 
 def frame_record(df):
-    return {'index': [str(i) for i in df.index], 'columns': {c: [None if pd.isna(v) else float(v) for v in df[c]]
-                                                             for c in df.columns}}
+    def val(v):
+        if isinstance(v, str):
+            return v
+        return None if pd.isna(v) else float(v)
+    return {'index': [str(i) for i in df.index], 'dtypes': {c: str(df[c].dtype) for c in df.columns},
+            'columns': {c: [val(v) for v in df[c]] for c in df.columns}}
 
 
 def frame_from(rec):
     df = pd.DataFrame({c: [np.nan if v is None else v for v in vals] for c, vals in rec['columns'].items()})
+    for c, dt in rec.get('dtypes', {}).items():
+        if dt.startswith(('int', 'uint')) and not df[c].isna().any():
+            df[c] = df[c].astype(dt)
     df.index = rec['index']
     return df
 
@@ -507,19 +518,39 @@ def gen_long(rng, n, T, censor, with_na):
         m = last & (rng.uniform(size=len(df)) < 0.15) & (df['t'] > 1) & ~df['id'].isin(ids[:2])
         df.loc[m, 'Y'] = np.nan
     df = df.iloc[rng.permutation(len(df))]
-    ix = int(rng.integers(0, 3))
+    ix = int(rng.integers(0, 4))
     if ix == 0:
         df = df.reset_index(drop=True)
     elif ix == 1:
         df.index = rng.permutation(len(df)) + 1000
-    else:
+    elif ix == 2:
         df.index = ['p%05d' % i for i in rng.permutation(len(df))]
+    else:
+        df.index = np.arange(len(df)) // 2            # repeated labels
+    v = int(rng.integers(0, 4))
+    if v == 1:
+        df['id'] = ['s%d' % i for i in df['id']]      # string person labels (not zero-padded: lexicographic order)
+    elif v == 2:
+        df['t'] = df['t'].astype(float)
+    elif v == 3:
+        df['t'] = df['t'].astype(np.int16)
+        if not df[['A', 'Y']].isna().any().any():
+            df['A'] = df['A'].astype(np.int8)
+            df['Y'] = df['Y'].astype(np.int32)
+            df['B'] = df['B'].astype(bool)
     return df
+
+
+def id_codes(df):
+    """person labels -> naturals, order-preserving (labels may be strings)"""
+    u = sorted(df['id'].unique())
+    return {v: i + 1 for i, v in enumerate(u)}
 
 
 def long_args(df, cond, h1=None, h0=None):
     ok = ~df[['id', 't', 'A', 'W', 'B', 'Y']].isna().any(axis=1)
-    d = dict(id=enc_list(df['id'], lambda v: str(int(v))), t=enc_list(df['t'], lambda v: str(int(v))),
+    code = id_codes(df)
+    d = dict(id=enc_list(df['id'], lambda v: str(code[v])), t=enc_list(df['t'], lambda v: str(int(v))),
              a=enc_list(df['A'], lambda v: '0' if pd.isna(v) else str(int(v))),
              y=enc_list(df['Y'], lambda v: '0' if pd.isna(v) else str(int(v))),
              c=enc_list(cond, lambda v: str(int(bool(v)))), ok=enc_list(ok, lambda v: str(int(bool(v)))))
@@ -533,7 +564,8 @@ def check_long(chk, drv, rng, df, model, saturated, tag):
     """all four treatments on one estimator object, in random order"""
     from zepid.causal.gformula import SurvivalGFormula
     key = hash(df.to_csv())
-    cc = df.dropna()
+    dfr = df.reset_index(drop=True)      # positional copy for the harness's own reference call
+    cc = dfr.dropna()
     cond = (df['B'] == 1).values
     # reference fit (harness's own call on the complete records, caller's row order)
     href = None
@@ -543,8 +575,8 @@ def check_long(chk, drv, rng, df, model, saturated, tag):
             d1, d0 = cc.copy(), cc.copy()
             d1['A'] = 1.0
             d0['A'] = 0.0
-            h1 = pd.Series(np.asarray(fm.predict(d1), dtype=float), index=cc.index).reindex(df.index)
-            h0 = pd.Series(np.asarray(fm.predict(d0), dtype=float), index=cc.index).reindex(df.index)
+            h1 = pd.Series(np.asarray(fm.predict(d1), dtype=float), index=cc.index).reindex(dfr.index)
+            h0 = pd.Series(np.asarray(fm.predict(d0), dtype=float), index=cc.index).reindex(dfr.index)
             if saturated:
                 t = pd.DataFrame({'mu': fm.fittedvalues, 'y': cc['Y']})
                 grp = t.groupby([cc['A'], cc['t']])
@@ -609,7 +641,7 @@ def check_long(chk, drv, rng, df, model, saturated, tag):
                 ci = [float(unrq(x)) for x in dec_list(rep['ci'], str)]
                 tm = dec_list(rep['times'], int)
                 mg = [float(unrq(x)) for x in dec_list(rep['marg'], str)]
-                ok = sid == [int(x) for x in s['id'].values] and stt == [int(x) for x in s['t'].values] and \
+                ok = sid == [id_codes(df)[x] for x in s['id'].values] and stt == [int(x) for x in s['t'].values] and \
                     len(ci) == len(v) and bool(np.all(np.abs(np.array(ci) - v) <= TOL)) and \
                     tm == [int(x) for x in marg.index] and bool(np.all(np.abs(np.array(mg) - marg.values) <= TOL))
             chk.k(ok, 'SurvivalGFormula.fit(%s) predicted_df / marginal_outcome model vs impl' % plan,
@@ -634,6 +666,355 @@ def check_long(chk, drv, rng, df, model, saturated, tag):
             chk.d(ok, 'SurvivalGFormula (hazard saturated in arm x time) == product-limit cumulative incidence',
                   None if ok else mk({'first_difference': bad}))
 
+
+
+# ---------------------------------------------------------------------------------------------- histories
+def plan_in_form(g, form, n):
+    """the same static plan in the containers a caller may reasonably pass"""
+    g = [int(v) for v in g]
+    if form == 'single':
+        return g
+    if form == 'tuple':
+        return tuple(g)
+    if form == 'float':
+        return [float(v) for v in g]
+    if form == 'int8':
+        return np.array(g, dtype=np.int8)
+    if form == 'series':
+        return pd.Series(g)
+    if form == 'ndarray':
+        return np.tile(np.array(g, dtype=int), (n, 1))
+    if form == 'lists':
+        return [list(g) for _ in range(n)]
+    if form == 'frame':
+        return pd.DataFrame(np.tile(np.array(g, dtype=np.int64), (n, 1)), index=np.arange(n)[::-1])
+    if form == 'bool':
+        return [bool(v) for v in g]
+    if form == 'boolmatrix':
+        return np.tile(np.array(g, dtype=bool), (n, 1))
+    raise KeyError(form)
+
+
+PLAN_FORMS = ['single', 'tuple', 'float', 'int8', 'series', 'ndarray', 'lists', 'frame']
+
+
+def ice_specs(K, nlev):
+    sat = [sat_model(k, nlev) for k in range(1, K + 1)]
+    main = [main_model(k, nlev) for k in range(1, K + 1)]
+    specs = {'sat': sat, 'main': main}
+    if K > 1:
+        specs['main_then_sat_last'] = main[:-1] + sat[-1:]
+        specs['sat_then_main_last'] = sat[:-1] + main[-1:]
+    else:
+        specs['a_only'] = ['A1']
+    return specs
+
+
+def run_ice_ops(frames, K, ops, upto=None):
+    """execute a history on one object per data set; returns the list of (status, value) of the fit ops"""
+    from zepid.causal.gformula import IterativeCondGFormula
+    import warnings
+    warnings.simplefilter('ignore')
+    exps = ['A%d' % (k + 1) for k in range(K)]
+    outs = ['Y%d' % (k + 1) for k in range(K)]
+    objs = {}
+    out = []
+    for i, op in enumerate(ops if upto is None else ops[:upto + 1]):
+        try:
+            if op['obj'] not in objs:
+                objs[op['obj']] = IterativeCondGFormula(frames[op['obj']], exposures=exps, outcomes=outs)
+            o = objs[op['obj']]
+            if op['op'] == 'spec':
+                o.outcome_model(op['models'], print_results=False)
+                out.append(None)
+            else:
+                o.fit(plan_in_form(op['plan'], op['form'], len(frames[op['obj']])))
+                out.append(('ok', float(o.marginal_outcome)))
+        except Exception as e:      # a history of valid calls must not raise
+            out.append(('exc', '%s: %s' % (type(e).__name__, str(e)[:120])))
+    return out
+
+
+def check_ice_history(chk, drv, rng, K, nlev, length):
+    """Several data sets with the same column names and model strings, one estimator object each, calls interleaved:
+    specify -> fit -> respecify another model -> fit ..., every fit judged against a fresh object given the last
+    specification, against the nonparametric g-formula when the last specification is saturated, and (K = 1) against
+    TimeFixedGFormula with the last model."""
+    from zepid.causal.gformula import TimeFixedGFormula
+    nobj = 2
+    frames, styles = [], []
+    for j in range(nobj):
+        style = ('surv', 'surv_na')[int(rng.integers(0, 2))]
+        df, ixs = gen_wide(rng, K, nlev, int(rng.integers(60, 160)), style, seed_rows=1 if (2 * nlev) ** K > 40 else 2)
+        frames.append(df)
+        styles.append(style + '/' + ixs)
+    specs = ice_specs(K, nlev)
+    names = sorted(specs)
+    plans = list(itertools.product([0, 1], repeat=K))
+    # history: every object starts with a non-saturated specification and a fit, then is respecified
+    ops = []
+    last = {}
+    for j in range(nobj):
+        first = names[int(rng.integers(0, len(names)))]
+        if first == 'sat':
+            first = 'main'
+        ops.append({'op': 'spec', 'obj': j, 'spec': first, 'models': specs[first]})
+        ops.append({'op': 'fit', 'obj': j, 'plan': list(plans[int(rng.integers(0, len(plans)))]), 'form': 'single'})
+        last[j] = first
+    for i in range(length):
+        j = int(rng.integers(0, nobj))
+        if rng.uniform() < 0.4:
+            nm = 'sat' if (last[j] != 'sat' and rng.uniform() < 0.6) else names[int(rng.integers(0, len(names)))]
+            ops.append({'op': 'spec', 'obj': j, 'spec': nm, 'models': specs[nm]})
+            last[j] = nm
+            ops.append({'op': 'fit', 'obj': j, 'plan': list(plans[int(rng.integers(0, len(plans)))]),
+                        'form': PLAN_FORMS[int(rng.integers(0, len(PLAN_FORMS)))]})
+        else:
+            ops.append({'op': 'fit', 'obj': j, 'plan': list(plans[int(rng.integers(0, len(plans)))]),
+                        'form': PLAN_FORMS[int(rng.integers(0, len(PLAN_FORMS)))]})
+    res = run_ice_ops(frames, K, ops)
+    fresh, refs, npgs = {}, {}, {}
+    cur = {}
+    for i, (op, r) in enumerate(zip(ops, res)):
+        j = op['obj']
+        if op['op'] == 'spec':
+            cur[j] = op
+            if r is not None:
+                chk.d(False, 'outcome_model() on valid models does not raise', ice_hist_case(frames, K, nlev, ops, i, r))
+            continue
+        spec = cur[j]
+        g = tuple(op['plan'])
+        chk.case(None, ('ice_history', hash(frames[j].to_csv()), spec['spec'], g, op['form'], i),
+                 sample={'history': [(o['op'], o['obj'], o.get('spec') or (o['plan'], o['form'])) for o in ops[:i + 1]],
+                         'result': r} if chk.evals % 37 == 0 else None)
+        chk.count('ice_history_fit_after_%s' % ('respecification' if sum(1 for o in ops[:i] if o['op'] == 'spec' and
+                                                                           o['obj'] == j) > 1 else 'first_specification'))
+        chk.count('history_form_' + op['form'])
+        key = (j, spec['spec'], g)
+        if key not in fresh:
+            fresh[key] = impl_ice(frames[j], K, spec['models'], list(g))
+        f = fresh[key]
+        ok = r[0] == 'ok' and f[0] == 'ok' and abs(r[1] - f[1]) <= 1e-12
+        chk.d(ok, 'fit after a history of specifications/fits (other objects interleaved) == fresh object with the '
+                  'last specification', None if ok else ice_hist_case(frames, K, nlev, ops, i, r, fresh=f))
+        if spec['spec'] == 'sat' and drv is not None:
+            if (j, g) not in npgs:
+                rep, _ = drv.ask('ice_npg', g=enc_list(g, lambda v: str(int(v))), levels=enc_list(range(nlev), str),
+                                 **wide_args(frames[j], K))
+                app = rep['status'] == 'ok' and all(rep[x] == '1' for x in ('wf', 'surv', 'cover', 'pos'))
+                ref = reference_run(chk, drv, frames[j], K, nlev, spec['models'], ('single', list(g)), True) if app else None
+                if ref is not None and ref[0] == 'discard':
+                    chk.discard(ref[1])
+                    app = False
+                npgs[(j, g)] = (float(unrq(rep['value'])), rep['value'], ref[2]) if app else None
+            if npgs[(j, g)] is None:
+                chk.count('npg_hypotheses_not_met_history')
+            else:
+                want, exact, hdev = npgs[(j, g)]
+                ok = r[0] == 'ok' and abs(r[1] - want) <= TOL + 2 * K * hdev
+                chk.d(ok, 'saturated models specified last in a history == nonparametric g-formula',
+                      None if ok else ice_hist_case(frames, K, nlev, ops, i, r, npg=want, npg_exact=exact))
+        if K == 1:
+            try:
+                tf = TimeFixedGFormula(frames[j], exposure='A1', outcome='Y1')
+                tf.outcome_model(model=spec['models'][0], print_results=False)
+                tf.fit(treatment='all' if g[0] == 1 else 'none', predict_missing=False)
+                t = ('ok', float(tf.marginal_outcome))
+            except Exception as e:
+                t = ('exc', '%s: %s' % (type(e).__name__, str(e)[:100]))
+            ok = r[0] == 'ok' and t[0] == 'ok' and abs(r[1] - t[1]) <= 1e-12
+            chk.d(ok, 'single time point, model specified last in a history == TimeFixedGFormula with that model',
+                  None if ok else ice_hist_case(frames, K, nlev, ops, i, r, timefixed=t))
+    # boolean plans (a per-individual plan computed from a condition is a boolean array)
+    j = 0
+    g = plans[int(rng.integers(0, len(plans)))]
+    for form in ('bool', 'boolmatrix'):
+        want = impl_ice(frames[j], K, specs['sat'], list(g))
+        got = impl_ice(frames[j], K, specs['sat'], plan_in_form(g, form, len(frames[j])))
+        chk.case(None, ('ice_boolplan', hash(frames[j].to_csv()), g, form))
+        chk.count('plan_form_' + form)
+        ok = got[0] == 'ok' and want[0] == 'ok' and abs(got[1] - want[1]) <= 1e-12
+        chk.d(ok, 'plan given as booleans == the same plan given as 0/1',
+              None if ok else {'kind': 'ice', 'K': K, 'nlev': nlev, 'models': specs['sat'], 'plan': list(map(int, g)),
+                               'form': form, 'impl': got, 'as_integers': want, 'frame': frame_record(frames[j])})
+
+
+def ice_hist_case(frames, K, nlev, ops, i, r, **extra):
+    c = {'kind': 'ice_history', 'K': K, 'nlev': nlev, 'ops': ops[:i + 1], 'failing_op': i, 'result': r,
+         'frames': [frame_record(f) for f in frames]}
+    c.update(extra)
+    return c
+
+
+SGF_MODELS = {'sat': 'C(t)*A', 'lin': 'A + W + B + t', 'quad': 'A*W + B + t + I(t**2)', 'ct': 'A + C(t) + W'}
+SGF_TREATS = ['all', 'none', 'natural', "g['B']==1", "g['A']==1", "g['A']==0"]
+
+
+def sgf_outputs(sg):
+    pdf = sg.predicted_df
+    s = pdf[['id', 't', 'Y']].sort_values(['id', 't'])
+    return s, sg.marginal_outcome
+
+
+def run_sgf_ops(frames, ops, upto=None):
+    """execute a history; after every op, every result object kept from an earlier fit is compared with the snapshot
+    taken when it was returned.  Returns per-op records."""
+    from zepid.causal.gformula import SurvivalGFormula
+    import warnings
+    warnings.simplefilter('ignore')
+    objs, kept, out = {}, [], []
+    for i, op in enumerate(ops if upto is None else ops[:upto + 1]):
+        rec = {'status': 'ok'}
+        try:
+            if op['obj'] not in objs:
+                objs[op['obj']] = SurvivalGFormula(frames[op['obj']], idvar='id', exposure='A', outcome='Y', time='t')
+            o = objs[op['obj']]
+            if op['op'] == 'spec':
+                o.outcome_model(model=op['model'], print_results=False)
+            else:
+                o.fit(treatment=op['treat'])
+                s, m = sgf_outputs(o)
+                rec['ids'] = list(s['id'].values)
+                rec['ts'] = [int(x) for x in s['t'].values]
+                rec['ci'] = np.array(s['Y'].values, dtype=float)
+                rec['mt'] = [int(x) for x in m.index]
+                rec['mg'] = np.array(m.values, dtype=float)
+                kept_now = (i, o.predicted_df, o.predicted_df.copy(deep=True), o.marginal_outcome,
+                            o.marginal_outcome.copy(deep=True))
+        except Exception as e:
+            rec = {'status': 'exc', 'error': '%s: %s' % (type(e).__name__, str(e)[:120])}
+            kept_now = None
+        # results handed out earlier must still be what they were
+        changed = []
+        for (i0, pdf, snap, mo, msnap) in kept:
+            try:
+                same = pdf.shape == snap.shape and list(pdf.columns) == list(snap.columns) and \
+                    bool(np.all((pdf.values == snap.values) | (pd.isna(pdf.values) & pd.isna(snap.values)))) and \
+                    bool(np.all(mo.values == msnap.values))
+            except Exception:
+                same = False
+            if not same:
+                changed.append(i0)
+        rec['earlier_results_changed'] = changed
+        if op['op'] == 'fit' and kept_now is not None:
+            kept.append(kept_now)
+        out.append(rec)
+    return out
+
+
+def check_sgf_history(chk, drv, rng, length):
+    nobj = 2
+    T = int(rng.integers(2, 6))
+    frames = [gen_long(rng, int(rng.integers(40, 120)), T, censor=float(rng.choice([0.0, 0.15])), with_na=bool(j % 2))
+              for j in range(nobj)]
+    names = sorted(SGF_MODELS)
+    ops, last = [], {}
+    for j in range(nobj):
+        first = names[int(rng.integers(0, len(names)))]
+        ops.append({'op': 'spec', 'obj': j, 'name': first, 'model': SGF_MODELS[first]})
+        ops.append({'op': 'fit', 'obj': j, 'treat': ('all', 'none')[int(rng.integers(0, 2))]})
+        last[j] = first
+    for i in range(length):
+        j = int(rng.integers(0, nobj))
+        if rng.uniform() < 0.35:
+            nm = 'sat' if rng.uniform() < 0.5 else names[int(rng.integers(0, len(names)))]
+            ops.append({'op': 'spec', 'obj': j, 'name': nm, 'model': SGF_MODELS[nm]})
+        ops.append({'op': 'fit', 'obj': j, 'treat': SGF_TREATS[int(rng.integers(0, len(SGF_TREATS)))]})
+    res = run_sgf_ops(frames, ops)
+    cur, fresh, pls, hdevs = {}, {}, {}, {}
+
+    def case(i, **extra):
+        c = {'kind': 'sgf_history', 'ops': ops[:i + 1], 'failing_op': i,
+             'record': {k: (v.tolist() if isinstance(v, np.ndarray) else v) for k, v in res[i].items() if k != 'ids'},
+             'frames': [frame_record(f) for f in frames]}
+        c.update(extra)
+        return c
+
+    for i, (op, r) in enumerate(zip(ops, res)):
+        j = op['obj']
+        if r.get('earlier_results_changed'):
+            chk.d(False, 'predicted_df / marginal_outcome kept from an earlier fit are not changed by later calls',
+                  case(i, earlier_fit_ops=r['earlier_results_changed']))
+        else:
+            chk.d(True, 'predicted_df / marginal_outcome kept from an earlier fit are not changed by later calls', None)
+        if op['op'] == 'spec':
+            cur[j] = op
+            if r['status'] != 'ok':
+                chk.d(False, 'outcome_model() on a valid model does not raise', case(i))
+            continue
+        spec = cur[j]
+        chk.case(None, ('sgf_history', hash(frames[j].to_csv()), spec['name'], op['treat'], i),
+                 sample={'history': [(o['op'], o['obj'], o.get('name') or o['treat']) for o in ops[:i + 1]],
+                         'marginal': r['mg'].tolist() if r['status'] == 'ok' else r} if chk.evals % 37 == 0 else None)
+        nspec = sum(1 for o in ops[:i] if o['op'] == 'spec' and o['obj'] == j)
+        chk.count('sgf_history_fit_after_%s' % ('respecification' if nspec > 1 else 'first_specification'))
+        if r['status'] != 'ok':
+            chk.d(False, 'fit() in a history of valid calls does not raise', case(i))
+            continue
+        # ---- fresh object given the last specification
+        key = (j, spec['name'], op['treat'])
+        if key not in fresh:
+            fr = run_sgf_ops(frames, [{'op': 'spec', 'obj': j, 'name': spec['name'], 'model': spec['model']},
+                                      {'op': 'fit', 'obj': j, 'treat': op['treat']}])[1]
+            fresh[key] = fr
+        f = fresh[key]
+        ok = f['status'] == 'ok' and r['ids'] == f['ids'] and r['ts'] == f['ts'] and r['mt'] == f['mt'] and \
+            bool(np.all(np.abs(r['ci'] - f['ci']) <= 1e-12)) and bool(np.all(np.abs(r['mg'] - f['mg']) <= 1e-12))
+        chk.d(ok, 'fit after a history (respecification, other treatments, other objects) == fresh object with the '
+                  'last specification', None if ok else case(i, fresh_marginal=f.get('mg', np.array([])).tolist()))
+        # ---- monotone / bounded
+        v = r['ci']
+        same = np.array(r['ids'][1:], dtype=object) == np.array(r['ids'][:-1], dtype=object)
+        mono = bool(np.all(v[1:][same] >= v[:-1][same])) and bool(np.all((v >= 0) & (v <= 1)))
+        chk.d(mono, 'individual cumulative incidence non-decreasing in time and within [0,1] (history)',
+              None if mono else case(i))
+        # ---- closed form: product-limit of the arm (all / none), arm-weighted product-limit (natural)
+        if spec['name'] == 'sat' and drv is not None and op['treat'] in ('all', 'none', 'natural', "g['A']==1"):
+            df = frames[j]
+            if j not in pls:
+                cond = (df['B'] == 1).values
+                pp = {}
+                for arm in (1, 0):
+                    rep, _ = drv.ask('sgf_pl', arm=arm, **long_args(df, cond))
+                    good = rep['status'] == 'ok' and rep['pp'] == '1' and rep['bin'] == '1'
+                    pp[arm] = (dec_list(rep['times'], int),
+                               [None if x == '_' else float(unrq(x)) for x in dec_list(rep['pl'], str)]) if good else None
+                pls[j] = pp
+                cc = df.reset_index(drop=True).dropna()
+                try:
+                    fm = glm_binomial('Y ~ C(t)*A', cc)
+                    t_ = pd.DataFrame({'mu': fm.fittedvalues, 'y': cc['Y'].astype(float)})
+                    grp = t_.groupby([cc['A'], cc['t']])
+                    dev = float((grp['mu'].transform('max') - grp['y'].transform('mean')).abs().max())
+                    dev = max(dev, float((grp['mu'].transform('min') - grp['y'].transform('mean')).abs().max()))
+                    if len(grp) != 2 * cc['t'].nunique():
+                        dev = float('inf')
+                except Exception:
+                    dev = float('inf')
+                chk.h_checked += 1
+                hdevs[j] = dev
+            if pls[j][1] is None or pls[j][0] is None or not hdevs[j] <= H_TOL:
+                chk.count('pl_hypotheses_not_met_history')
+                continue
+            tm = pls[j][1][0]
+            slack = TOL + 2 * len(tm) * hdevs[j]
+            cc = df.dropna()
+            want = []
+            for k_, t in enumerate(tm):
+                if op['treat'] in ('all', 'none'):
+                    want.append(pls[j][1 if op['treat'] == 'all' else 0][1][k_])
+                else:
+                    n1 = int(((cc['t'] == t) & (cc['A'] == 1)).sum())
+                    n0 = int(((cc['t'] == t) & (cc['A'] == 0)).sum())
+                    p1, p0 = pls[j][1][1][k_], pls[j][0][1][k_]
+                    if (n1 and p1 is None) or (n0 and p0 is None):
+                        want.append(None)
+                    else:
+                        want.append(((p1 or 0.0) * n1 + (p0 or 0.0) * n0) / (n1 + n0))
+            ok = r['mt'] == tm and all(w is None or abs(gv - w) <= slack for w, gv in zip(want, r['mg']))
+            chk.d(ok, 'hazard model saturated in arm x time specified last in a history: marginal curve == '
+                      'product-limit closed form (%s)' % ('arm' if op['treat'] in ('all', 'none') else 'arm-weighted, natural course'),
+                  None if ok else case(i, product_limit=want))
 
 # ---------------------------------------------------------------------------------------------- driver
 def run(chk, drv, rng, tier):
@@ -678,6 +1059,12 @@ def run(chk, drv, rng, tier):
         check_long(chk, drv, rng, df, 'C(t)*A', True, 'saturated')
         check_long(chk, drv, rng, df, ('A + W + B + t', 'A*W + B + t + I(t**2)', 'A + C(t) + W')[rep % 3], False,
                    'unsaturated')
+    # ---- histories on reused objects, several data sets / objects interleaved in one process
+    for rep in range(6 if quick else 60):
+        K = 1 + rep % 3
+        check_ice_history(chk, drv, rng, K, 2 if (K == 3 or rep % 2 == 0) else 3, length=6 if quick else 10)
+    for rep in range(5 if quick else 50):
+        check_sgf_history(chk, drv, rng, length=7 if quick else 12)
     chk.extra['exhaustive'] = False
     chk.extra['plans_exhaustive_per_data_set'] = 'all of {0,1}^K for K = 1..3 (3 sampled plans for K=3 with 3 covariate levels)'
 
@@ -726,8 +1113,6 @@ def replay(rec):
                 bad += 1
         elif c.get('kind') == 'sgf':
             df = frame_from(c['frame'])
-            df['id'] = df['id'].astype(int)
-            df['t'] = df['t'].astype(int)
             from zepid.causal.gformula import SurvivalGFormula
             with common.quiet():
                 try:
@@ -757,6 +1142,44 @@ def replay(rec):
                 same = s['id'].values[1:] == s['id'].values[:-1]
                 if not (np.all(v[1:][same] >= v[:-1][same]) and np.all((v >= 0) & (v <= 1))):
                     print('cumulative incidence not monotone / outside [0,1]')
+                    bad += 1
+        elif c.get('kind') == 'ice_history':
+            frames = [frame_from(fr) for fr in c['frames']]
+            K, ops, i = c['K'], c['ops'], c['failing_op']
+            with common.quiet():
+                res = run_ice_ops(frames, K, ops)
+                op = ops[i]
+                spec = [o for o in ops[:i] if o['op'] == 'spec' and o['obj'] == op['obj']][-1]
+                fr = impl_ice(frames[op['obj']], K, spec['models'], op.get('plan'))
+            print('history:', [(o['op'], o['obj'], o.get('spec') or (o['plan'], o['form'])) for o in ops])
+            print('last fit now:', res[i], ' fresh object with the last specification:', fr, ' stored:', c.get('result'))
+            if res[i] is None or res[i][0] != 'ok' or fr[0] != 'ok' or not abs(res[i][1] - fr[1]) <= 1e-12:
+                bad += 1
+            if drv is not None and spec.get('spec') == 'sat':
+                rep, _ = drv.ask('ice_npg', g=enc_list(op['plan'], str), levels=enc_list(range(c['nlev']), str),
+                                 **wide_args(frames[op['obj']], K))
+                print('nonparametric g-formula (exact):', rep.get('value'), {k: rep.get(k) for k in ('wf', 'surv', 'cover', 'pos')})
+                if all(rep.get(k) == '1' for k in ('wf', 'surv', 'cover', 'pos')) and res[i] and res[i][0] == 'ok' and \
+                        not abs(res[i][1] - float(unrq(rep['value']))) <= 1e-7:
+                    bad += 1
+        elif c.get('kind') == 'sgf_history':
+            frames = [frame_from(fr) for fr in c['frames']]
+            ops, i = c['ops'], c['failing_op']
+            with common.quiet():
+                res = run_sgf_ops(frames, ops)
+            print('history:', [(o['op'], o['obj'], o.get('name') or o['treat']) for o in ops])
+            r = res[i]
+            print('failing op now:', {k: (v.tolist() if isinstance(v, np.ndarray) else v) for k, v in r.items()
+                                      if k in ('status', 'error', 'mt', 'mg', 'earlier_results_changed')})
+            if r['status'] != 'ok' or any(x.get('earlier_results_changed') for x in res):
+                bad += 1
+            if ops[i]['op'] == 'fit' and r['status'] == 'ok':
+                spec = [o for o in ops[:i] if o['op'] == 'spec' and o['obj'] == ops[i]['obj']][-1]
+                with common.quiet():
+                    f = run_sgf_ops(frames, [dict(spec), dict(ops[i])])[1]
+                print('fresh object with the last specification:', f.get('mg', np.array([])).tolist() if f['status'] == 'ok' else f)
+                if f['status'] != 'ok' or r['mt'] != f['mt'] or not bool(np.all(np.abs(r['mg'] - f['mg']) <= 1e-12)) or \
+                        not bool(np.all(np.abs(r['ci'] - f['ci']) <= 1e-12)):
                     bad += 1
         elif c.get('kind') == 'single_t':
             df = frame_from(c['frame'])
